@@ -234,6 +234,35 @@ def check_centred(ck, c, x, out, full, tag):
     return True
 
 
+# option values: ordinary ones and the falsy-but-legal ones (0, 0.0, -0.0, False, NumPy zeros)
+SCALES = [2.0, -0.5, 3.0, 1.0, 0.25, 0, 0.0, -0.0, False, np.float64(0.0), np.int64(0), True, 1]
+LOCATIONS = [0.0, 1.5, -4.0, 0, False, np.float64(0.0), -0.0]
+
+
+def scale_sig(sc, lo, kc):
+    if float(sc) == 0.0:
+        return "scale-location/zero-scale-not-applied"          # a falsy scale is a value, not "use the default"
+    return "scale-location/not-applied/%s" % kc
+
+
+def same_value(a, b):
+    if a is None or b is None:
+        return a is b
+    try:
+        return bool(np.all(np.asarray(a) == np.asarray(b))) and np.shape(a) == np.shape(b)
+    except Exception:  # noqa
+        return False
+
+
+def stored_options(ck, obj, given, rep):
+    """a constructor keeps every option it was given (value for value; falsy values are values)"""
+    for name, val in given.items():
+        got = getattr(obj, name, "<missing>")
+        if isinstance(got, str) or not same_value(got, val):
+            ck.fail("constructor/option-not-stored/%s" % name, "%s(..., %s=%r) has .%s = %r" % (type(obj).__name__, name, val, name, got),
+                    dict(rep, option=name, given=repr(val), stored=repr(got)))
+
+
 def kernel_class(c):
     if all(k == 1 for k in c.k):
         return "single-voxel-kernel"
@@ -249,10 +278,12 @@ def options_on_case(ck, rng, c, x, A3, t, shape, fwhm, base):
         return
     out0, full = base
     kc = kernel_class(c)
-    sc = float(rng.choice([2.0, -0.5, 3.0, 1.0, 0.25]))
-    lo = float(rng.choice([0.0, 1.5, -4.0])) if sc != 1.0 else float(rng.choice([1.5, -4.0]))
-    want = sc * out0 + lo
-    rep = replay_of(c, x=x.tolist(), scale=sc, location=lo, kernel_class=kc)
+    sc = SCALES[int(rng.integers(0, len(SCALES)))]
+    lo = LOCATIONS[int(rng.integers(0, len(LOCATIONS)))]
+    if float(sc) == 1.0 and float(lo) == 0.0:
+        lo = 1.5
+    want = float(sc) * out0 + float(lo)
+    rep = replay_of(c, x=x.tolist(), scale=repr(sc), location=repr(lo), kernel_class=kc)
 
     def judge(got, how):
         if isinstance(got, Exception):
@@ -260,7 +291,7 @@ def options_on_case(ck, rng, c, x, A3, t, shape, fwhm, base):
         elif got.shape != want.shape:
             ck.fail("scale/raises-or-wrong-window", "%s: output shape %s, expected %s (%s)" % (how, got.shape, want.shape, kc), dict(rep, how=how))
         elif not np.allclose(got, want, rtol=0, atol=1e-9 * max(1.0, float(np.abs(want).max()))):
-            ck.fail("scale-location/not-applied/%s" % kc, "%s: output != scale * smooth(x) + location, scale %r location %r, kernel shape %s: max|diff| %.3g"
+            ck.fail(scale_sig(sc, lo, kc), "%s: output != scale * smooth(x) + location, scale %r location %r, kernel shape %s: max|diff| %.3g"
                     % (how, sc, lo, c.k, float(np.abs(got - want).max())), dict(rep, how=how))
 
     ck.count(("opt", shape, fwhm, sc, lo), bucket="options/%s" % kc)
@@ -268,11 +299,12 @@ def options_on_case(ck, rng, c, x, A3, t, shape, fwhm, base):
         f2, _ = mk(aff4(A3, t), shape, fwhm, scale=sc, location=lo)
         judge(smooth(f2, c.cm, x).get_fdata(), "LinearFilter(scale, location).smooth")
         # the same filter used again on another image, then with its public attributes changed back
+        stored_options(ck, f2, {"scale": sc, "location": lo, "fwhm": fwhm, "cov": None}, rep)
         y = -2.0 * x
         got = smooth(f2, c.cm, y).get_fdata()
-        wy = sc * (-2.0 * out0) + lo
+        wy = float(sc) * (-2.0 * out0) + float(lo)
         if got.shape != wy.shape or not np.allclose(got, wy, rtol=0, atol=1e-9 * max(1.0, float(np.abs(wy).max()))):
-            ck.fail("scale-location/not-applied/%s" % kc, "second image through the same scaled filter is wrong (%s)" % kc, dict(rep, how="second image"))
+            ck.fail(scale_sig(sc, lo, kc), "second image through the same scaled filter is wrong (%s)" % kc, dict(rep, how="second image"))
     except Exception as e:  # noqa
         judge(e, "LinearFilter(scale, location).smooth")
     try:
@@ -492,6 +524,9 @@ def conversion_purity(ck):
         ("int64-vector", lambda: np.array([5, 7, 9])), ("int32-vector", lambda: np.array([5, 7, 9], dtype=np.int32)),
         ("strided-view", lambda: base.copy()[::2]), ("column-view", lambda: big.copy()[:, 1]),
         ("fortran-2d", lambda: np.asfortranarray(big.copy())), ("float64-scalar", lambda: np.float64(6.0)),
+        ("zero-int", lambda: 0), ("zero-float", lambda: 0.0), ("false", lambda: False), ("zeros-vector", lambda: np.zeros(3)),
+        ("vector-with-zero", lambda: np.array([0.0, 2.0, 0.0])), ("empty-list", lambda: []), ("empty-tuple", lambda: ()),
+        ("empty-array", lambda: np.array([], dtype=np.float64)),
     ]
     for fname, fn, inv, op in (("fwhm2sigma", fwhm2sigma, sigma2fwhm, lambda v: v / SQRT8LN2),
                                ("sigma2fwhm", sigma2fwhm, fwhm2sigma, lambda v: v * SQRT8LN2)):
@@ -666,6 +701,25 @@ def resels(ck):
             except Exception as e:  # noqa
                 ck.fail("resel/raises/%s" % orient, "Resels on a %s affine (%s) raised %s: %s" % (kind, orient, type(e).__name__, e), rep)
                 continue
+            # options are stored as given (falsy values included); zero widths / resels map to 0 (pos_recipr)
+            for nm_, cl_ in ((False, False), (0, 0), (True, True)):
+                try:
+                    Ro = Resels(AffineTransform.from_params('ijk', 'xyz', A4), normalized=nm_, clobber=cl_, D=D)
+                    stored_options(ck, Ro, {"D": D, "normalized": nm_, "clobber": cl_, "mask": None, "fwhm": None, "resels": None}, rep)
+                except Exception as e:  # noqa
+                    ck.fail("resel/raises/options", "Resels(normalized=%r, clobber=%r) raised %s: %s" % (nm_, cl_, type(e).__name__, e), rep)
+            for zarg in (0, 0.0, np.array([0.0, 2.0, 0.0]), np.zeros(2)):
+                try:
+                    zr = np.asarray(R.fwhm2resel(zarg), float)
+                    zf = np.asarray(R.resel2fwhm(zarg), float)
+                    za = np.asarray(zarg, float)
+                    wr = np.where(za > 0, absd * (C4 / np.where(za > 0, za, 1.0)) ** D, 0.0)
+                    wf = np.where(za > 0, C4 * absd ** (1.0 / D) * np.where(za > 0, za, 1.0) ** (-1.0 / D), 0.0)
+                    if not (np.allclose(zr, wr, rtol=1e-11, atol=0) and np.allclose(zf, wf, rtol=1e-11, atol=0)):
+                        ck.fail("resel-fwhm/zero-argument", "fwhm2resel(%r) = %s, resel2fwhm(%r) = %s; expected %s, %s (zero maps to zero)"
+                                % (zarg, zr.tolist(), zarg, zf.tolist(), wr.tolist(), wf.tolist()), rep)
+                except Exception as e:  # noqa
+                    ck.fail("resel-fwhm/zero-argument", "conversion of %r raised %s: %s" % (zarg, type(e).__name__, e), rep)
             if not (np.isfinite(w) and w > 0 and abs(w ** D - absd) <= 1e-11 * absd):
                 ck.fail("resel-wedge/%s" % orient, "Resels.wedge = %r, expected |det|^(1/D) = %r (det %r, D %d, %s affine)"
                         % (w, absd ** (1.0 / D), float(d), D, kind), dict(rep, wedge=w))
@@ -774,6 +828,44 @@ def oracles(ck):
             except Exception as e:  # noqa
                 ck.fail("scale/raises-or-wrong-window", "LinearFilter(scale=%r, location=%r).smooth raised %s: %s" % (sc, lo, type(e).__name__, e),
                         replay_of(c, x=x.tolist(), scale=sc, location=lo))
+        # every falsy-but-legal value of scale / location (constructor and attribute), clean, is_fft on each configuration
+        x = rng.integers(-8, 9, shape).astype(float)
+        sx = smooth(c.f, c.cm, x).get_fdata()
+        kc = kernel_class(c)
+        for sc in [0, 0.0, -0.0, False, np.float64(0.0), np.int64(0), 1, True, 2.0]:
+            for lo in [0, 0.0, False, np.float64(0.0), 1.5]:
+                ck.count(("falsy", shape, fwhm, repr(sc), repr(lo)), bucket="options/falsy-values")
+                want = float(sc) * sx + float(lo)
+                rep_ = replay_of(c, x=x.tolist(), scale=repr(sc), location=repr(lo))
+                for how in ("constructor", "attributes"):
+                    try:
+                        if how == "constructor":
+                            f2, _ = mk(aff4(A3, (1, -2, 3)), shape, fwhm, scale=sc, location=lo)
+                            stored_options(ck, f2, {"scale": sc, "location": lo, "fwhm": fwhm, "cov": None}, rep_)
+                        else:
+                            f2, _ = mk(aff4(A3, (1, -2, 3)), shape, fwhm)
+                            f2.scale, f2.location = sc, lo
+                        s2 = smooth(f2, c.cm, x).get_fdata()
+                    except Exception as e:  # noqa
+                        ck.fail("scale/raises-or-wrong-window", "scale=%r, location=%r (%s) raised %s: %s" % (sc, lo, how, type(e).__name__, e), dict(rep_, how=how))
+                        continue
+                    if s2.shape != want.shape or not np.allclose(s2, want, rtol=0, atol=1e-9):
+                        ck.fail(scale_sig(sc, lo, kc) if s2.shape == want.shape else "scale/raises-or-wrong-window",
+                                "scale=%r, location=%r given to the %s: output != scale * smooth(x) + location (max|diff| %s)"
+                                % (sc, lo, how, float(np.abs(s2 - want).max()) if s2.shape == want.shape else "shape %s" % (s2.shape,)), dict(rep_, how=how))
+        for cl in (False, 0, None):
+            for ff in (False, 0):
+                ck.count(("falsy-flags", shape, fwhm, repr(cl), repr(ff)), bucket="options/falsy-values")
+                try:
+                    got = c.f.smooth(_img(x, c.cm), clean=cl, is_fft=ff).get_fdata()
+                    if not np.allclose(got, sx, rtol=0, atol=1e-9):
+                        ck.fail("options/falsy-flag-changes-result", "smooth(clean=%r, is_fft=%r) differs from smooth()" % (cl, ff), replay_of(c, x=x.tolist(), clean=repr(cl), is_fft=repr(ff)))
+                except Exception as e:  # noqa
+                    ck.fail("options/falsy-flag-raises", "smooth(clean=%r, is_fft=%r) raised %s: %s" % (cl, ff, type(e).__name__, e), replay_of(c, x=x.tolist()))
+        # an all-zero image gives location everywhere
+        z = smooth(c.f, c.cm, np.zeros(shape)).get_fdata()
+        if not np.allclose(z, 0.0, rtol=0, atol=1e-12):
+            ck.fail("linear/zero-image", "smooth of the zero image is not zero", replay_of(c))
         # normalisation options: 'l1' (= l1sum for a positive kernel) and 'l2'
         for nm, den in (("l1", float(np.abs(c.K).sum())), ("l2", float(np.sqrt((c.K ** 2).sum())))):
             ck.count(("norm", shape, fwhm, nm), bucket="oracle/normalisation")
